@@ -358,9 +358,41 @@ latest entry; an entry that is missing is, in the ledger, absent or over. -/
 def RIpm (t : Nat) (m : IPM) (l : BLedger) : Prop :=
   m.bkeys = l.bkeys ∧ m.wkeys = l.wkeys ∧
   (∀ k, (m.whitelist k).isSome = l.white k) ∧
-  ∀ k, match m.blacklist k with
+  (∀ k, match m.blacklist k with
        | some r => l.black k = some r.ExpiresAt
-       | none => unexpired t (l.black k) = false
+       | none => unexpired t (l.black k) = false) ∧
+  -- what is persisted is what is in memory: a manager built over the storage starts from the same lists
+  (∀ k, m.sblack k = m.blacklist k) ∧ (∀ k, m.swhite k = m.whitelist k)
+
+theorem syncDel_eq (old new s : IPKey → Option IPRecord) (hs : ∀ k, s k = old k)
+    (hn : ∀ k, new k = old k ∨ new k = none) : ∀ k, syncDel old new s k = new k := by
+  intro k
+  unfold syncDel
+  rcases hn k with h | h
+  · rw [h, hs k]; cases old k <;> simp
+  · rw [h, hs k]; cases old k <;> simp
+
+theorem upd_none_sub (m : IPKey → Option IPRecord) (k : IPKey) : ∀ k', upd m k none k' = m k' ∨ upd m k none k' = none := by
+  intro k'; unfold upd; by_cases h : k' = k <;> simp [h]
+
+theorem asyncRemoveList_sub (t ip : Nat) (m : IPKey → Option IPRecord) :
+    ∀ k, asyncRemoveList t ip m k = m k ∨ asyncRemoveList t ip m k = none := by
+  intro k; unfold asyncRemoveList
+  by_cases h : k = ⟨ip, none⟩
+  · simp only [h, if_true]; cases m ⟨ip, none⟩ with
+    | none => simp
+    | some r => by_cases he : security.IPRecord.isExpired t r = true <;> simp [he]
+  · simp [h]
+
+theorem cleanupList_sub (t : Nat) (m : IPKey → Option IPRecord) :
+    ∀ k, cleanupList t m k = m k ∨ cleanupList t m k = none := by
+  intro k; unfold cleanupList
+  cases m k with
+  | none => simp
+  | some r =>
+    by_cases h1 : timeIsZero r.ExpiresAt = true
+    · simp [h1]
+    · by_cases h2 : timeAfter t r.ExpiresAt = true <;> simp [h1, h2]
 
 theorem unexpired_mono {t t' : Nat} (h : t ≤ t') (e : Option Nat) (hu : unexpired t e = false) :
     unexpired t' e = false := by
@@ -371,15 +403,15 @@ theorem unexpired_mono {t t' : Nat} (h : t ≤ t') (e : Option Nat) (hu : unexpi
     exact ⟨hu.1, by omega⟩
 
 theorem RIpm_mono {t t' : Nat} (h : t ≤ t') {m l} (hr : RIpm t m l) : RIpm t' m l := by
-  obtain ⟨h1, h2, h3, h4⟩ := hr
-  refine ⟨h1, h2, h3, fun k => ?_⟩
+  obtain ⟨h1, h2, h3, h4, hJ1, hJ2⟩ := hr
+  refine ⟨h1, h2, h3, fun k => ?_, hJ1, hJ2⟩
   have := h4 k
   cases hb : m.blacklist k with
   | none => simp only [hb] at this ⊢; exact unexpired_mono h _ this
   | some r => simp only [hb] at this ⊢; exact this
 
 theorem RIpm_empty (t : Nat) : RIpm t IPM.empty BLedger.empty := by
-  refine ⟨rfl, rfl, fun _ => rfl, fun _ => rfl⟩
+  refine ⟨rfl, rfl, fun _ => rfl, fun _ => rfl, fun _ => rfl, fun _ => rfl⟩
 
 theorem unexpired_of_record (t : Nat) (r : IPRecord) :
     unexpired t (some r.ExpiresAt) = !(security.IPRecord.isExpired t r) := by
@@ -394,7 +426,7 @@ theorem unexpired_of_record (t : Nat) (r : IPRecord) :
 
 theorem RIpm_allowed {t : Nat} {m l} (hr : RIpm t m l) (ip : Nat) :
     isAllowed t ip m = l.allowed t ip := by
-  obtain ⟨h1, h2, h3, h4⟩ := hr
+  obtain ⟨h1, h2, h3, h4, _, _⟩ := hr
   unfold isAllowed BLedger.allowed
   rw [h1, h2, findInList_isSome, any_candidates]
   have hw : (fun k : IPKey => k.matches ip && (match m.whitelist k with | some _ => true | none => false)) =
@@ -422,28 +454,36 @@ theorem RIpm_allowed {t : Nat} {m l} (hr : RIpm t m l) (ip : Nat) :
 theorem ipmStep_sim (t : Nat) (e : IEv) {m l} (hr : RIpm t m l) :
     RIpm t (ipmStep t e m).1 (bledgerStep t e l).1 ∧ (ipmStep t e m).2 = (bledgerStep t e l).2 := by
   have hr0 := hr
-  obtain ⟨h1, h2, h3, h4⟩ := hr
+  obtain ⟨h1, h2, h3, h4, hJ1, hJ2⟩ := hr
   cases e with
   | addBlack k dur =>
-    refine ⟨⟨by simp [ipmStep, bledgerStep, h1], h2, h3, fun k' => ?_⟩, rfl⟩
-    simp only [ipmStep, bledgerStep, upd]
-    by_cases hk : k' = k
-    · simp [hk]
-    · simp only [hk, if_false]; exact h4 k'
+    refine ⟨⟨by simp [ipmStep, bledgerStep, h1], h2, h3, fun k' => ?_, fun k' => ?_, hJ2⟩, rfl⟩
+    · simp only [ipmStep, bledgerStep, upd]
+      by_cases hk : k' = k
+      · simp [hk]
+      · simp only [hk, if_false]; exact h4 k'
+    · simp only [ipmStep, upd]
+      by_cases hk : k' = k
+      · simp [hk]
+      · simp only [hk, if_false]; exact hJ1 k'
   | removeBlack k =>
-    refine ⟨⟨h1, h2, h3, fun k' => ?_⟩, rfl⟩
+    refine ⟨⟨h1, h2, h3, fun k' => ?_, syncDel_eq _ _ _ hJ1 (upd_none_sub _ k), hJ2⟩, rfl⟩
     simp only [ipmStep, bledgerStep, upd]
     by_cases hk : k' = k
     · simp [hk, unexpired]
     · simp only [hk, if_false]; exact h4 k'
   | addWhite k =>
-    refine ⟨⟨h1, by simp [ipmStep, bledgerStep, h2], fun k' => ?_, h4⟩, rfl⟩
-    simp only [ipmStep, bledgerStep, upd]
-    by_cases hk : k' = k
-    · simp [hk]
-    · simp only [hk, if_false]; exact h3 k'
+    refine ⟨⟨h1, by simp [ipmStep, bledgerStep, h2], fun k' => ?_, h4, hJ1, fun k' => ?_⟩, rfl⟩
+    · simp only [ipmStep, bledgerStep, upd]
+      by_cases hk : k' = k
+      · simp [hk]
+      · simp only [hk, if_false]; exact h3 k'
+    · simp only [ipmStep, upd]
+      by_cases hk : k' = k
+      · simp [hk]
+      · simp only [hk, if_false]; exact hJ2 k'
   | removeWhite k =>
-    refine ⟨⟨h1, h2, fun k' => ?_, h4⟩, rfl⟩
+    refine ⟨⟨h1, h2, fun k' => ?_, h4, hJ1, syncDel_eq _ _ _ hJ2 (upd_none_sub _ k)⟩, rfl⟩
     simp only [ipmStep, bledgerStep, upd]
     by_cases hk : k' = k
     · simp [hk]
@@ -452,8 +492,8 @@ theorem ipmStep_sim (t : Nat) (e : IEv) {m l} (hr : RIpm t m l) :
     refine ⟨hr0, ?_⟩
     simp only [ipmStep, bledgerStep, RIpm_allowed hr0 ip]
   | asyncRemove ip =>
-    refine ⟨⟨h1, h2, h3, fun k' => ?_⟩, rfl⟩
-    simp only [ipmStep, bledgerStep]
+    refine ⟨⟨h1, h2, h3, fun k' => ?_, syncDel_eq _ _ _ hJ1 (asyncRemoveList_sub t ip _), hJ2⟩, rfl⟩
+    simp only [ipmStep, bledgerStep, asyncRemoveList]
     have := h4 k'
     by_cases hk : k' = ⟨ip, none⟩
     · simp only [hk, if_true]
@@ -468,8 +508,8 @@ theorem ipmStep_sim (t : Nat) (e : IEv) {m l} (hr : RIpm t m l) :
           rw [this, unexpired_of_record, he]; rfl
     · simp only [hk, if_false]; exact this
   | cleanup =>
-    refine ⟨⟨h1, h2, h3, fun k' => ?_⟩, rfl⟩
-    simp only [ipmStep, bledgerStep]
+    refine ⟨⟨h1, h2, h3, fun k' => ?_, syncDel_eq _ _ _ hJ1 (cleanupList_sub t _), hJ2⟩, rfl⟩
+    simp only [ipmStep, bledgerStep, cleanupList]
     have := h4 k'
     cases hb : m.blacklist k' with
     | none => simp only [hb] at this ⊢; exact this
@@ -485,6 +525,10 @@ theorem ipmStep_sim (t : Nat) (e : IEv) {m l} (hr : RIpm t m l) :
           simp [hlt]
           simpa using hz
         · simp only [hlt, decide_false, Bool.false_eq_true, if_false]; exact this
+  | restart =>
+    refine ⟨⟨h1, h2, fun k => ?_, fun k => ?_, fun _ => rfl, fun _ => rfl⟩, rfl⟩
+    · simp only [ipmStep, bledgerStep, hJ2 k]; exact h3 k
+    · simp only [ipmStep, bledgerStep, hJ1 k]; exact h4 k
 
 theorem ipmRun_sim (es : List (Nat × IEv)) :
     ∀ (t0 : Nat) (m : IPM) (l : BLedger), Sorted t0 es → RIpm t0 m l → ipmRun es m = bspecRun es l := by
